@@ -68,7 +68,7 @@ def install(I):
     enummeta = cls("EnumMeta", "enum.EnumMeta", [I.builtins["type"]])
     enum_ = cls("Enum", "enum.Enum", metaclass=enummeta)
     strenum = cls("StrEnum", "strenum.StrEnum", [I.builtins["str"], enum_], metaclass=enummeta)
-    ext["enum"] = {"Enum": enum_, "EnumMeta": enummeta, "EnumType": enummeta, "StrEnum": strenum,
+    ext["enum"] = {"auto": Builtin("enum.auto", lambda ctx: AUTO), "Enum": enum_, "EnumMeta": enummeta, "EnumType": enummeta, "StrEnum": strenum,
                    "IntEnum": cls("IntEnum", "enum.IntEnum", [I.builtins["int"], enum_])}
     ext["strenum"] = {"StrEnum": strenum}
 
@@ -272,8 +272,12 @@ def iso_calendar(I, ctx, self):
     return TupleVal([B.wrap(iy), B.wrap(wk), B.wrap(wd0 + 1)])
 
 
-class _P:
-    pass
+class _Auto:
+    def __repr__(self):
+        return "enum.auto()"
+
+
+AUTO = _Auto()
 
 
 def _prop(fn):
